@@ -334,6 +334,21 @@ func propsMvcc(k1 []byte, v1 uint64, k2 []byte, v2 uint64) {
 	prop("memkey_roundtrip", err == nil && bytes.Equal(dk, k1), hx(k1))
 }
 
+// strictness of mvccDecode evaluated on the implementation: whatever it accepts is a meta key or exactly one mvccEncode image
+func propMvccStrict(in []byte) {
+	defer func() {
+		if r := recover(); r != nil {
+			prop("mvcc_decode_nopanic", false, hx(in))
+		}
+	}()
+	k, v, err := mocktikv.VerifMvccDecode(append([]byte{}, in...))
+	if err != nil {
+		return
+	}
+	meta := codec.EncodeBytes(nil, k)
+	prop("mvcc_strict", (v == 0 && bytes.Equal(meta, in)) || bytes.Equal(mocktikv.VerifMvccEncode(k, v), in), hx(in))
+}
+
 var alphabet = []byte{0x00, 0x01, 0x7F, 0x80, 0xFE, 0xFF}
 
 func enumStrings(maxLen int, f func([]byte)) {
@@ -476,6 +491,9 @@ func main() {
 		}
 		emit("md", hx(mm))
 		emit("mkd", hx(mm))
+		propMvccStrict(mm)
+		propMvccStrict(m)
+		propMvccStrict(me)
 		propsMvcc(a, va, b, vb)
 		propsMvcc(a, va, a, vb)
 		for _, op := range []string{"du", "dud", "di", "did", "duv", "dv", "dcu", "dcv"} {
